@@ -259,10 +259,12 @@ mod model {
 
     impl<K, V> HashMap<K, V, std::collections::hash_map::RandomState> {
         pub fn new() -> Self {
-            HashMap { items: Vec::new(), _s: PhantomData }
+            // room for 8 entries up front: a `Vec` that grows by reallocation loses its
+            // constant length/contents in CBMC's symex (observable behaviour is the same)
+            HashMap { items: Vec::with_capacity(8), _s: PhantomData }
         }
-        pub fn with_capacity(_n: usize) -> Self {
-            Self::new()
+        pub fn with_capacity(n: usize) -> Self {
+            HashMap { items: Vec::with_capacity(if n < 8 { 8 } else { n }), _s: PhantomData }
         }
     }
     impl<K, V, S> HashMap<K, V, S> {
